@@ -86,14 +86,14 @@ EStep(s) ==
          IF len > MaxAvpLength THEN [s EXCEPT !.pc = "done", !.panic = TRUE, !.patch = << >>]
          ELSE LET r == WApply(s.buf, "patch", AvpFlagsAndLength(IsHidden(s.cur), len), s.astart)
               IN [s EXCEPT !.buf = r.buf, !.pc = "a_next",
-                           !.patch = [off |-> s.astart, n |-> 2, refused |-> r.refused],
+                           !.patch = [off |-> s.astart, n |-> 2, refused |-> r.refused, val |-> len],
                            !.spans = Append(@, <<s.astart, len>>)]
     [] s.pc = "m_patch"  ->
          LET len == Len(s.buf) - s.start IN
          IF len > MaxMessageLength THEN [s EXCEPT !.pc = "done", !.panic = TRUE, !.patch = << >>]
          ELSE LET r == WApply(s.buf, "patch", Be16(len), s.lenpos)
               IN [s EXCEPT !.buf = r.buf, !.pc = "done",
-                           !.patch = [off |-> s.lenpos, n |-> 2, refused |-> r.refused]]
+                           !.patch = [off |-> s.lenpos, n |-> 2, refused |-> r.refused, val |-> len]]
     [] s.pc = "d_write"  ->
          LET d == s.val IN
          Put(s, Be16(DataFlagWord(d))
